@@ -16,6 +16,7 @@
 -/
 import Lumina.Gen.C08
 import Lumina.Proofs.EdsMalformed
+import Lumina.Proofs.EdsAccept
 
 namespace Lumina.Props.C08
 open Lumina.Util Lumina.Model.Nmt Lumina.Model.Eds Lumina.Model.EdsCode
@@ -114,6 +115,82 @@ theorem from_ods_rejects_malformed (enc : List Bytes → List Bytes) (ver : Nat)
   cases h : fromOds enc ver ods with
   | error er => simp [specRejects]
   | ok e => rw [from_ods_rejects hs h] at hm; cases hm
+
+/-- **Valid extended squares are accepted by `new`** (the converse direction: none of the malformed classes, first-quadrant
+    shares carry a supported namespace / share version ⇒ `Ok`), for every input.  So the rejection theorems are not
+    satisfied by a validator that rejects everything. -/
+theorem new_accepts_valid (ver : Nat) (shares : List Bytes) (hv : validEds ver shares = true) :
+    specAccepts (validEds ver shares) (match edsNew ver shares with | .ok _ => true | .error _ => false) = true := by
+  obtain ⟨e, he⟩ := Lumina.Proofs.EdsAccept.new_accepts hv
+  simp [specAccepts, he]
+
+/-- … and every square `new` accepts is valid: acceptance is EXACTLY validity -/
+theorem new_accepts_iff_valid (ver : Nat) (shares : List Bytes) :
+    (∃ e, edsNew ver shares = .ok e) ↔ validEds ver shares = true := by
+  constructor
+  · rintro ⟨e, he⟩
+    have ok := edsNew_ok he
+    unfold validEds
+    rw [new_rejects he]
+    simp only [Bool.not_false, Bool.true_and, List.all_eq_true, List.mem_range, Bool.or_eq_true, bne_iff_ne, ne_eq]
+    intro w _
+    by_cases hw : w * w = shares.length
+    · right
+      have hwe : w = e.width := Nat.mul_self_inj.mp (by rw [hw, ok.sq])
+      subst hwe
+      unfold sharesSupported
+      simp only [List.all_eq_true, List.mem_range, Bool.and_eq_true, Bool.not_eq_true']
+      intro r hr c hc
+      have hrw : r < e.width := by omega
+      have hcw : c < e.width := by omega
+      have hmem : cell e.width shares r c ∈ lineCells e.width shares .row r :=
+        List.mem_map.mpr ⟨c, List.mem_range.mpr hcw, rfl⟩
+      have hok := ok.cells r hrw .row _ hmem
+      have hpar : (cell e.width shares r c).isParity = false := by
+        simp [cell, isOdsSquare, hr, hc]
+      obtain ⟨n, hn⟩ := hok.ns hpar
+      have hval := hok.version
+      simp only [cell] at hn hval
+      refine ⟨?_, ?_⟩
+      · have := Lumina.Props.C14.fromRaw_spec ((shares.getD (r * e.width + c) []).take 29)
+        have h29 : NS_SIZE = 29 := rfl
+        rw [h29] at hn
+        rw [hn] at this
+        simp only [Lumina.Props.C14.obsOf, Lumina.Spec.C14.specFromRaw, Bool.and_eq_true] at this
+        exact this.1
+      · unfold shareValidate at hval
+        have h29 : NS_SIZE = 29 := rfl
+        simp only [isOdsSquare, hr, hc, decide_true, Bool.and_self, Bool.not_true, Bool.not_false, Bool.true_and, h29,
+          SHARE_VERSION_ONE] at hval
+        split at hval
+        · cases hval
+        · rename_i hcond
+          simpa using hcond
+    · left; exact hw
+  · intro hv; exact Lumina.Proofs.EdsAccept.new_accepts hv
+
+/-- **Limitation of lumina, not of the model**: an original square wider than 128 is rejected by `from_ods` whatever its
+    contents (the GF(2^8) leopard codec handles at most 256 shards), although app versions ≥ 6 allow widths up to 512 -/
+theorem from_ods_wider_than_codec_rejected (enc : List Bytes → List Bytes) (ver : Nat) (ods : List Bytes)
+    (hk : 128 < isqrt ods.length) : ∀ e, fromOds enc ver ods ≠ .ok e := by
+  intro e he
+  obtain ⟨hsq, hle, _⟩ := Lumina.Proofs.ShrexEds.fromOds_ok he
+  unfold fromOdsLeopardErr at hle
+  simp only [Bool.or_eq_false_iff] at hle
+  have h1 := hle.1.1
+  rw [List.any_eq_false] at h1
+  have hpos : 0 < isqrt ods.length := by omega
+  have hmem : (ods.drop (0 * isqrt ods.length)).take (isqrt ods.length) ∈ sqRows (isqrt ods.length) ods :=
+    List.mem_map.mpr ⟨0, List.mem_range.mpr hpos, rfl⟩
+  have hthis := h1 _ hmem
+  unfold leopardEncodeErr at hthis
+  have hkn : isqrt ods.length ≤ ods.length := by
+    have := Lumina.Proofs.EdsMalformed.le_mul_self (isqrt ods.length); omega
+  have hlen : ((ods.drop (0 * isqrt ods.length)).take (isqrt ods.length) ++
+      List.replicate (isqrt ods.length) zeroShare).length > LEOPARD_ORDER := by
+    simp only [List.length_append, List.length_take, List.length_drop, List.length_replicate, LEOPARD_ORDER]; omega
+  rw [if_pos hlen] at hthis
+  simp at hthis
 
 /-- the defect found by the correspondence and fixed in /repo (bcfb373): before the fix the EMPTY original square was
     not rejected — `from_ods` panicked on it -/
